@@ -187,6 +187,7 @@ def emit_format_bonding(repo, tier="quick"):
      obs.append(ob_fail(oid, fi, lp, construct="for d in %s" % show(it), instance="range", reason="not every descriptor of the list is visited in order")))
     need(isinstance(lp.target, ast.Name), "loop target is not a name", fi, lp)
     d = lp.target.id
+    tname_in_body = tname
     # initial value of the accumulator
     inits = [x for x in fl.reaching(acc, cfg.node_of_stmt[id(lp)]) if x.kind == "assign" and not any(x.node in cfg.loops.get(l, ()) for l in cfg.loops)]
     ok_init = len(inits) == 1 and isinstance(inits[0].value, ast.Constant) and inits[0].value.value == ""
@@ -208,6 +209,9 @@ def emit_format_bonding(repo, tier="quick"):
             return a + b
         if isinstance(e, ast.Call) and isinstance(e.func, ast.Name) and e.func.id == "str" and len(e.args) == 1:
             return classify(e.args[0], env, strict)
+        if isinstance(e, ast.Call) and isinstance(e.func, ast.Name) and e.func.id == "int" and len(e.args) == 1 and \
+                classify(e.args[0], env, False) == [("ORDERCHAR",)]:
+            return [("ORDERINT",)]
         if isinstance(e, ast.Subscript) and isinstance(e.value, ast.Name) and e.value.id == d and isinstance(e.slice, ast.Slice):
             sl = e.slice
             if sl.lower is None and sl.step is None and isinstance(sl.upper, ast.UnaryOp) and isinstance(sl.upper.op, ast.USub) and \
@@ -221,6 +225,8 @@ def emit_format_bonding(repo, tier="quick"):
             src = None
             if isinstance(inner, ast.Call) and isinstance(inner.func, ast.Name) and inner.func.id == "int" and len(inner.args) == 1:
                 src = inner.args[0]
+            if isinstance(inner, ast.Name) and inner.id in env and env[inner.id] == [("ORDERINT",)]:
+                return [("SYM", "own")]
             if src is not None:
                 if isinstance(src, ast.Name) and src.id in env and env[src.id] == [("ORDERCHAR",)]:
                     return [("SYM", "own")]
@@ -253,9 +259,19 @@ def emit_format_bonding(repo, tier="quick"):
         if stmts and isinstance(stmts[0], ast.Assign) and len(stmts[0].targets) == 1 and isinstance(stmts[0].targets[0], ast.Name) and \
                 stmts[0].targets[0].id != acc:
             cl = classify(stmts[0].value, env, strict=False)
-            if cl in ([("ORDERCHAR",)], [("SYM", "own")], [("SYM", "foreign")]):
+            if cl in ([("ORDERCHAR",)], [("ORDERINT",)], [("LABEL",)], [("SYM", "own")], [("SYM", "foreign")]):
                 env = dict(env)
                 env[stmts[0].targets[0].id] = cl
+                return orig_block(stmts[1:], atoms, env, word, cont)
+        # a, b = (x, y): component-wise
+        if stmts and isinstance(stmts[0], ast.Assign) and len(stmts[0].targets) == 1 and isinstance(stmts[0].targets[0], ast.Tuple) and \
+                isinstance(stmts[0].value, ast.Tuple) and len(stmts[0].targets[0].elts) == len(stmts[0].value.elts) and \
+                all(isinstance(t, ast.Name) and t.id != acc for t in stmts[0].targets[0].elts):
+            cls_ = [classify(v, env, strict=False) for v in stmts[0].value.elts]
+            if all(c in ([("ORDERCHAR",)], [("ORDERINT",)], [("LABEL",)], [("SYM", "own")], [("SYM", "foreign")]) for c in cls_):
+                env = dict(env)
+                for t, c in zip(stmts[0].targets[0].elts, cls_):
+                    env[t.id] = c
                 return orig_block(stmts[1:], atoms, env, word, cont)
         return orig_block(stmts, atoms, env, word, cont)
     w._block = tracking_block
@@ -294,11 +310,18 @@ def emit_format_bonding(repo, tier="quick"):
     for order in (0, 1, 2, 3, 4):
         sym = wtable.get(order)
         emitted = None
-        for atoms, wd, _ in paths:
+        for atoms, wd, penv in paths:
             consistent = True
             for text, val in atoms.items():
                 ev = Evaluator()
                 env = {v: sym for v in symvars}
+                for nm_, cl_ in penv.items():
+                    if cl_ == [("ORDERINT",)]:
+                        env[nm_] = order
+                    elif cl_ == [("ORDERCHAR",)]:
+                        env[nm_] = str(order)
+                    elif cl_ == [("SYM", "own")]:
+                        env[nm_] = sym
                 try:
                     r = ev.truth(ev.eval(ast.parse(text, mode="eval").body, env))
                 except Unsupported as err:
